@@ -45,6 +45,10 @@ def register(R):
     return VBool(th.is_self(a[0].t))
 
   @R.spec
+  def is_skip_key(it, a, k):
+    return VBool(z3.And(th.kkind(a[0].t) == th.K_RESERVED, th.kval(a[0].t) == th.kval(th.SKIP_KEY)))
+
+  @R.spec
   def head(it, a, k):
     '''first element of a key path (meaningful when it is not empty)'''
     return VTKey(a[0].arr[a[0].lo])
@@ -214,6 +218,8 @@ def register(R):
           'region_ok(grown(S0))', 'in_region(grown(S0), result)',
           # an empty path / SELF replaces the root by the value itself
           'implies(len(key_path) == 0 or is_self_key(head(key_path)), result is value)',
+          # SKIP discards the value: on an empty tree nothing is inserted (D35: it used to become a key named SKIP)
+          'implies(len(key_path) > 0 and is_skip_key(head(key_path)) and t_kind(tree) == 4, result is tree)',
           # a strict view never grows a missing branch (it raises instead)
           'not (self.strict and t_kind(tree) == 4 and len(key_path) > 0 and not is_self_key(head(key_path)))',
           # get after set
